@@ -20,7 +20,7 @@ CLAIMED = {
     "C04": ("CrossHair/z3 symbolic execution of ruleLatentDOW/DOM/DOY/POD + real dateutil vs. exact nearest-future-date oracle in integer arithmetic; year x month case split",
             "Trusted: CrossHair's datetime model, regex engine and ranking (replay only). Not covered: ruleDOWDOM (rrule not executable symbolically). Bounds: quick 24 year-month cells (2023, 2024) for day-of-month / day+month, 6 cells for weekdays, 4 years for parts of day; thorough all 336 cells / 28 years.",
             "§5 C04"),
-    "C06": ("CrossHair/z3 symbolic execution of all clock rule bodies (am/pm, military, named, quarter/half, hour+part of day) and of _latent_tod vs. exact contracts; group stub for regex groups",
+    "C06": ("CrossHair/z3 symbolic execution of all clock rule bodies (am/pm, military, named, quarter/half, hour+part of day) and of _latent_tod vs. exact contracts; z3 token lemmas (named hours, hour/minute ranges); API-level notation equivalence over symbolic pool indices",
             "Trusted: regex group texts denote the stub's integers (token lemmas), CrossHair's datetime model, ranking (replay only). Bounds: all hours/minutes/13 am-pm spellings/all table parts of day; latent anchoring over 24 year-month cells quick, 336 thorough.",
             "§5 C06"),
     "C02": ("CrossHair/z3 symbolic execution of every registered rule wrapper on every admissible argument-shape tuple: inductive invariant WF (one step from an arbitrary well-formed state); shape closure as solver-checked fixpoint",
@@ -29,16 +29,16 @@ CLAIMED = {
     "C01": ("CrossHair/z3: 'raises nothing' clause of the WF family over every rule wrapper, accessors, latent post-processing; result construction/rendering on a scripted stream; scorer fallback; duration overflow",
             "Trusted: regex engine contract; WF as precondition (inductive by C02). Not covered: free Unicode text as a solver variable, rrule rule, debug=True generator return. Search-layer totality is decided by the C13-C15 obligations.",
             "§5 C01"),
-    "C05": ("CrossHair/z3 symbolic execution of the absolute-date rule bodies on group stubs vs. exact contracts; two-reference-time equality (TS-INDEP)",
+    "C05": ("CrossHair/z3 symbolic execution of the absolute-date rule bodies on group stubs vs. exact contracts; two-reference-time equality (TS-INDEP); z3 token lemmas (month names, numeric group ranges); API-level notation equivalence over symbolic pool indices",
             "Trusted: token lemmas (group text denotes the written integer), ranking. Bounds: dates 1900..2029 (two-digit years as 2000+yy), reference years 1970..2100.",
             "§5 C05"),
-    "C07": ("CrossHair/z3 symbolic execution of the range rules and of _latent_time_interval vs. exact ordering/wrap contracts; interval invariant strengthened from counterexamples",
+    "C07": ("CrossHair/z3 symbolic execution of the range rules and of _latent_time_interval vs. exact ordering/wrap contracts; API-level range / half-open obligations with symbolic pool indices steering untraced runs of the real parser",
             "Trusted: WF of arguments incl. the clause 'a clock interval never has start hour > end hour with both <= 12' (inductive, checked in C02), CrossHair's datetime model. Bounds: dates 1990..2029; date+clock ranges on 2 year-month cells quick / 24 thorough; latent ranges on the last two days of those months.",
             "§5 C07"),
-    "C08": ("CrossHair/z3 symbolic execution of the duration rules; end date compared with start + N units through an independent day-number relation",
+    "C08": ("CrossHair/z3 symbolic execution of the duration rules; end date compared with start + N units through an independent day-number relation; z3 token lemmas for number words, units and the digit group",
             "Trusted: token lemmas for amount / number-word / unit groups. Bounds: N <= 40 (months <= 13) quick, <= 120 thorough; start dates on 2 / 8 year-month cells.",
             "§5 C08"),
-    "C20": ("CrossHair/z3 symbolic execution of the date+clock / date+part-of-day / dayname+date / connector rules vs. exact composition contract",
+    "C20": ("CrossHair/z3 symbolic execution of the date+clock / date+part-of-day / dayname+date / connector rules vs. exact composition contract; z3 connector-word lemmas; API-level composition over symbolic pool indices (15 day expressions x 9 clocks x connectors x orders)",
             "Trusted: the day part and the clock part alone resolve as C03-C06 state; ranking of the glued reading. Bounds: every valid date 1880..2109, every hour/minute.",
             "§5 C20"),
     "C18": ("CrossHair/z3: a == b iff same kind and equal value fields for two symbolic artifacts with arbitrary spans; equal values hash equal (real __hash__ with an injective stand-in for the built-in)",
@@ -108,7 +108,7 @@ def main():
                      "kind_free_text": "solver-based checking of the real code: CrossHair (symbolic execution of the repository's Python functions with z3) and direct z3 encodings regenerated from the live source"}],
         "checks": checks,
         "not_applicable": na,
-        "notes": "Exit codes of ./vq-check: 0 holds within bounds, 1 replay-confirmed violation, 3 inconclusive (never reported as success).",
+        "notes": "Exit codes of ./vq-check: 0 holds within bounds, 1 replay-confirmed violation, 3 inconclusive (never reported as success). KNOWN-FINDING lines: C06 ('9 in the morning' ranking), C20 (beam pruning of a long composition). 82 seeded changes under /verif/seeded (81 caught; the thread race R2C12B is outside the technique). tools/mutant.py tries a change in a scratch worktree.",
     }
     with open(os.path.join(VERIF, "MANIFEST.json"), "w") as fd:
         json.dump(man, fd, indent=1)
